@@ -327,3 +327,23 @@ MANIFEST_TEXT["C14"] = {
     "technique": "property-based testing (rapid), model-based oracle (canonical proof and position algebra) + verify round-trip",
 }
 NOT_APPLICABLE[:] = [e for e in NOT_APPLICABLE if e["property_id"] not in CHECKS]
+
+CHECKS["C15"] = {
+    "test": "TestC15",
+    "quick": {"shards": 8, "checks": 1500},
+    "thorough": {"shards": 16, "checks": 8000},
+    "rule": "block histories as in C01 (all deletion / addition shapes) replayed on the reference model only; every block's summary is (the model's canonical targets of the "
+            "deleted leaves in request order, as a prover emits them; the addition count). A fresh CachingScheduleTracker is fed the summaries once per memory limit "
+            "(one of 1..3, one uniform in 1..total additions, and in 2 of 3 cases total+0..5 or 2^20) and GenerateCachingSchedule is checked against the model's "
+            "creation / deletion block of every slot: one list per block; strictly ascending; every entry is a slot added by that block and deleted by a later block; "
+            "for every block the number of scheduled slots alive there is <= the limit; with a limit >= all leaves ever added every slot with a recorded deletion is "
+            "scheduled. Non-trivial: some block empties a tree and adds in the same block, or a limit forced an eviction decision (fewer scheduled than spendable).",
+    "assumptions": COMMON_ASSUME + ["optimality of the schedule is not part of the statement and is not asserted"],
+}
+MANIFEST_TEXT["C15"] = {
+    "level_text": "Exploration: generated histories x memory limits, schedule validated against the model's per-slot lifetime (validity predicate, not one expected answer).",
+    "design_ref": "DESIGN.md section 6 C15",
+    "level_note": TRUST,
+    "technique": "property-based testing (rapid), model-based validity predicate over the whole schedule",
+}
+NOT_APPLICABLE[:] = [e for e in NOT_APPLICABLE if e["property_id"] not in CHECKS]
